@@ -6,10 +6,11 @@
 
       16  C14-bad-checksum-echo-answered   an echo request whose checksum does not verify is answered
       32  C14-checksum-omits-message       transmitted checksum covers the pseudo header only
+                                           (repaired by C03: must not occur)
       64  C14-unknown-error-type-answered  an SCMP error of a type outside {1,2,4,5,6} is answered
-                                           with an SCMP error (pocketscion simulator)
-     128  C14-gateway-answers-scmp-error   the SNAP gateway answers an inbound SCMP error with an
-                                           SCMP error
+                                           with an SCMP error (pocketscion simulator; repaired: must not occur)
+     128  C14-gateway-answers-scmp-error   the SNAP gateway answers an inbound (parseable) SCMP error
+                                           with an SCMP error (repaired: must not occur)
      256  C14-unknown-error-type-not-reported  a received SCMP error of a type outside {1,2,4,5,6}
                                            never reaches the ScmpErrorReceivers *)
 From Sci Require Export Scmp.Model Scmp.Spec.
@@ -34,6 +35,10 @@ Inductive scase :=
     an action that asks for the SCMP error (ety, ecode, ef1..3): local AS, router address
     length, outcome (0 = no reply, 1 = reply, 2 = Err, 99 = panic), encoded reply *)
 | CSim (pkt : rl) (p : dppath) (ety ecode ef1 ef2 ef3 : N) (local_as router_len : N) (oc : N) (out : rl)
+(** pocketscion handle_local_routing_action(IngressSCMPHandleRequest) = handle_scmp: echo and
+    traceroute requests answered by the router: local AS, router address (nibble, bytes),
+    interface id, outcome (0 = Ok(None), 1 = reply, 2 = Err, 99 = panic), encoded reply *)
+| CSimEcho (pkt : rl) (p : dppath) (local_as rnib : N) (rraw : list N) (ifid : N) (oc : N) (out : rl)
 (** the socket receive loop on a stream of packets: observed datagrams / replies / error
     callbacks, each tagged with the 1-based index of the packet that caused it *)
 | CStr (with_echo : bool) (buflen : N) (pkts : list (rl * dppath))
@@ -150,8 +155,15 @@ Definition verdict (c : scase) : N :=
   | CEnc src ty code f1 f2 f3 off dl sl ps oc out =>
     let offb := rle_expand off in let outb := rle_expand out in
     let h := header_required_size dl sl ps in
-    let m := mkE ty code f1 f2 f3 offb in
+    let m := mkE ty code f1 (if src =? 2 then 0 else f2) f3 offb in
+    let suppressed :=
+      if src =? 2 then match gateway_suppresses (f2 =? 0) offb with Ok b => Some b | _ => None end
+      else Some false in
     let mis :=
+      match suppressed with
+      | None => negb (oc =? 99)
+      | Some true => negb (oc =? 2)
+      | Some false =>
       if negb (header_size_valid h) then negb (oc =? 1)
       else match encode_err m h with
            | Ok mb => negb ((oc =? 0) && (sp_hdr_len outb =? h) && enc_agrees m h mb
@@ -159,9 +171,12 @@ Definition verdict (c : scase) : N :=
                             && optN_eqb (Some (blen outb)) (err_packet_size m h)
                             && (sp_dst_nib outb mod 4 + 1 =? dl / 4) && (sp_src_nib outb mod 4 + 1 =? sl / 4))
            | _ => negb (oc =? 99)
-           end in
+           end
+      end in
     let '(ok, _) := err_oracles offb outb in
-    let loop := (src =? 2) && (oc =? 0) && spec_is_scmp_error offb in
+    (* a datagram that parses as a SCION packet and is an SCMP error must not be answered *)
+    let parses := match required_size_raw offb with Ok _ => true | _ => false end in
+    let loop := (src =? 2) && (oc =? 0) && parses && spec_is_scmp_error offb in
     b2n mis 1
     |+ (if oc =? 0 then b2n (negb ok) 2 |+ ck_verdict outb else b2n (oc =? 99) 2)
     |+ b2n loop 128
@@ -223,6 +238,28 @@ Definition verdict (c : scase) : N :=
     b2n mis 1
     |+ (if replied then b2n (negb ok) 2 |+ ck_verdict o else b2n (oc =? 99) 2)
     |+ b2n (loop && negb loop_known) 2 |+ b2n loop_known 64
+  | CSimEcho pkt p local_as rnib rraw ifid oc out =>
+    let v := rle_expand pkt in let o := rle_expand out in
+    let replied := oc =? 1 in
+    let rhost := if rnib =? 0 then HA_V4 rraw else HA_V6 rraw in
+    let mis :=
+      negb (path_agrees v p) ||
+      match sim_handle_scmp v p local_as ifid with
+      | Ok None => negb (oc =? 0) && negb (oc =? 2)
+      | Ok (Some (ia, a, rp, msg)) =>
+        if sp_src_ia v =? local_as then negb (oc =? 0) else
+        negb (replied && bytes_eqb (encode_packet (mkP (mkH 0 0 PROTO_SCMP ia local_as a rhost rp) (PL_Scmp msg))) o)
+      | _ => negb (oc =? 99)
+      end in
+    (* oracles: a reply only to an echo / traceroute request; an echo reply is faithful and its
+       checksum verifies *)
+    let is_req := (sp_next_hdr v =? spec_proto_scmp) && (8 <=? lenN (sp_payload v))
+                  && ((sp_scmp_type v =? 128) || (sp_scmp_type v =? 130)) in
+    let bad := (oc =? 99) || (replied && negb is_req)
+               || (replied && (sp_scmp_type v =? 128)
+                   && negb (echo_reply_payload_ok v o && (sp_dst_ia o =? sp_src_ia v)
+                            && bytes_eqb (sp_dst_host o) (sp_src_host v))) in
+    b2n mis 1 |+ b2n bad 2 |+ (if replied then ck_verdict o else 0)
   | CStr with_echo buflen pkts dgs reps errs =>
     let ps := map (fun x : rl * dppath => (rle_expand (fst x), snd x)) pkts in
     let effs := recv_stream with_echo buflen ps in
